@@ -92,8 +92,16 @@ def lattice(lticks, maxlimit, noise=0.0, sub=(0.5e-6,)):
 
 def reactor_trace(r, label):
     """Trace of a fully constructed Reactor."""
+    # the requirement of every assembly evaluated afresh on that assembly
+    # (the reactor's own record is not trusted to be per assembly); the gap
+    # entry is the reactor's
+    import dassh
+    lims = [float(dassh.assembly.calculate_min_dz(
+        a, r.inlet_temp, a._estimated_T_out, r._is_adiabatic)[0])
+        for a in r.assemblies]
+    lims += [float(x) for x in r.min_dz['dz'][len(r.assemblies):]]
     cfg = {'B': [L(b) for b in r.axial_bnds],
-           'limit': L(float(np.min(r.min_dz['dz']))),
+           'limit': L(min(lims)),
            'user': L(r._options['axial_mesh_size'])
            if r._options['axial_mesh_size'] else [0, 0],
            'cap': L(0.01)}
